@@ -216,12 +216,38 @@ def evaluate(ctx, focus, case, cfg, rr, rc, out, err, traces, expected_cmds, sel
                sample={"args": case["args"], "targets": [t["path"] for t in cfg["targets"]], "statuses": [[c, t, s[0]] for c, t, s in flat][:12], "failed": out.get("failed"), "rc": rc} if nontriv else None,
                detail={"problems": problems[:6], "model_agrees": agree, "model": v[1], "impl_results": impl_res, "choices": choices, "rc": rc, "failed": out.get("failed")})
 
+def forced_delay_case(ctx, rng, point, ms, n_targets):
+    """C06: delay the run's own bookkeeping at a guarded point (verif::point) - the outcome must not change."""
+    cfg = {"targets": [{"path": "g%d" % i} for i in range(n_targets)]}
+    rr = runscen.RunRepo(ctx, cfg, commands=["build"])
+    try:
+        fail = rng.random() < 0.4
+        rr.script = {"*": {"sleep_ms": rng.choice([0, 5, 20])}}
+        if fail: rr.script["build|g%d" % rng.randrange(n_targets)] = {"exit": rng.randint(1, 255)}
+        rr.write_script()
+        rc, out, err, raw = rr.run("-c", "build", env={"MONORAIL_VERIF_POINTS": "%s=sleep:%d" % (point, ms)}, timeout=180)
+        case = {"forced_delay": point, "ms": ms, "targets": n_targets, "script": rr.script}
+        ctx.count("forced_" + point)
+        if out is None or "results" not in out:
+            ctx.record(case, True, False, False, True, detail={"what": "run ended with an internal error instead of a result", "rc": rc, "err": err}); return
+        res = runscen.result_statuses(out)
+        bad = [t for _, gs in res for g in gs for t, (st, code) in g.items() if st not in ("success", "error", "skipped")]
+        exp_failed = fail
+        ok = (bool(out.get("failed")) == exp_failed) and rc == (1 if exp_failed else 0) and not bad
+        ctx.record(case, True, ok, ok, True, sample={"point": point, "ms": ms, "targets": n_targets, "rc": rc, "failed": out.get("failed")},
+                   detail={"rc": rc, "failed": out.get("failed"), "expected_failed": exp_failed, "statuses": res})
+    finally:
+        rr.close()
+
 def run(ctx, scale, focus):
     n = {"C04": (14, 200), "C05": (16, 250), "C06": (16, 250)}[focus]
     cdir = os.path.join(vlib.VERIF, "corpus", focus)
     if os.path.isdir(cdir):
         for f in sorted(os.listdir(cdir)):
             run_case(ctx, random.Random(json.load(open(os.path.join(cdir, f)))["case_seed"]), focus)
+    if focus == "C06":
+        for point, ms in (("compressor_between_shutdowns", 40), ("compressor_before_join", 60), ("compressor_between_shutdowns", 5)) * (1 if ctx.quick() else 8):
+            forced_delay_case(ctx, ctx.rng, point, ms, ctx.rng.choice([3, 4, 5]))
     for _ in range((n[0] if ctx.quick() else n[1]) * scale):
         cs = ctx.rng.getrandbits(32)
         before = len(ctx.spec_failures) + len(ctx.tie_breaks)
